@@ -24,6 +24,28 @@ func init() {
 		},
 	})
 	register(&Property{
+		ID: "C24",
+		Explanation: "Decides coverage and gating in the selection code, not the selected sets: (filter-coverage) SnapshotFilter.matches applies HasHostname(f.Hosts), HasTagList(f.Tags) and HasPaths(f.Paths) to the snapshot and cannot yield true when any of them is false (specialised evaluation); every field of SnapshotFilter is one of these criteria or the time limit; findLatest records a snapshot as latest only behind matches==true, behind 'no limit or not after TimestampLimit', and behind 'no candidate yet or not before the current candidate'; FindAll's listing callback sees a snapshot only if it matches or failed to load; HasHostname and HasTagList return true for an empty list and HasHostname is otherwise membership of sn.Hostname, HasPaths tests the requested paths against the set of sn.Paths; (group-key) GroupSnapshots puts a snapshot's tags/hostname/paths into the key only on the corresponding groupBy edge (empty otherwise), sorts tags and paths before the key is encoded when grouping by them, and appends the snapshot to the group stored under its own key. Not decided: that the sets selected are exactly the satisfying snapshots (tag-list semantics, path normalisation), and tie-breaking of 'latest'.",
+		Assumptions: commonAssumptions,
+		Technique:   "static analysis: criterion/predicate pairing enumerated from the filter type + specialised path evaluation + CFG edge cuts (go/ssa, go/types)",
+		Run: func(c *eng.Ctx) {
+			ruleFilterCoverage(c)
+			ruleGroupKey(c)
+		},
+		Controls: []Control{
+			{Name: "paths-criterion-ignored", File: "internal/data/snapshot_find.go",
+				Old: "	return sn.HasHostname(f.Hosts) && sn.HasTagList(f.Tags) && sn.HasPaths(f.Paths)", New: "	return sn.HasHostname(f.Hosts) && sn.HasTagList(f.Tags)", Rule: "filter-coverage"},
+			{Name: "criteria-disjunctive", File: "internal/data/snapshot_find.go",
+				Old: "	return sn.HasHostname(f.Hosts) && sn.HasTagList(f.Tags) && sn.HasPaths(f.Paths)", New: "	return sn.HasHostname(f.Hosts) && (sn.HasTagList(f.Tags) || sn.HasPaths(f.Paths))", Rule: "filter-coverage"},
+			{Name: "latest-ignores-time-limit", File: "internal/data/snapshot_find.go",
+				Old: "		if !f.TimestampLimit.IsZero() && snapshot.Time.After(f.TimestampLimit) {\n			return nil\n		}\n", New: "", Rule: "filter-coverage"},
+			{Name: "tags-not-sorted-for-key", File: "internal/data/snapshot_group.go",
+				Old: "			tags = sn.Tags\n			sort.Strings(tags)", New: "			tags = sn.Tags", Rule: "group-key"},
+			{Name: "hostname-always-in-key", File: "internal/data/snapshot_group.go",
+				Old: "		if groupBy.Host {\n			hostname = sn.Hostname\n		}", New: "		hostname = sn.Hostname", Rule: "group-key"},
+		},
+	})
+	register(&Property{
 		ID: "C32",
 		Explanation: "Decides ordering, error flow and the skip test of copy, not tree equality: (copy-order) in copyTreeBatched the snapshots of a batch are saved only after the WithBlobUploader session that copied their trees returned nil (so an interrupted copy leaves no destination snapshot without data), an error of copyTree fails that session, copyTree is given *sn.Tree, it returns the errors of StreamTrees and CopyBlobs and copies only after the traversal succeeded; copySaveSnapshot saves into the destination with sn.Original set — kept if present, otherwise the source snapshot's ID; (similar-snapshots) similarSnapshots reads every persistent field of data.Snapshot (enumerated from the struct; exceptions Parent, Original, ProgramVersion, Summary, id) and collectAllSnapshots skips a source snapshot only behind similarSnapshots==true for a destination snapshot found under the same Original/ID key (or after yielding a load error); visited-set (C42) covers the tree traversal of copyTree. Not decided: that CopyBlobs transfers exactly the collected blobs, content equality after restore, and idempotence when destination snapshots were edited.",
 		Assumptions: commonAssumptions,
@@ -63,15 +85,18 @@ func init() {
 	})
 	register(&Property{
 		ID: "C27",
-		Explanation: "Decides the identity clause and the shape of the tree rewrite, not which paths a pattern matches (C28): (filter-identity) the node filters built by gatherExcludeFilters and gatherIncludeFilters return their node argument itself or nil, and no literal of these builders stores to a field of data.Node (kept entries keep metadata and data); for --exclude the selection helper returns false exactly on the edge where a reject function returned true for the node's path and the filter keeps the node exactly when the helper, asked about that path, returns true; (rewrite-tree) TreeRewriter.RewriteTree gives the filter item.Node and path.Join(nodepath, node.Name), adds exactly the node the filter returned, moves past a kept node only through AddNode or the edge where the rewritten subtree ID is null, sets a directory's Subtree to the recursive result, starts rewriting only after the tree re-encoded to the same ID (or AllowUnstableSerialization), and memoises old→new IDs only after Finalize succeeded; (rewrite-unchanged) in filterAndReplaceSnapshot, with an identical filtered tree, no metadata change and no recomputed summary, SaveSnapshot is unreachable. Not decided: the include filter's directory handling ('directories leading to matches'), pattern semantics, and summary statistics.",
+		Explanation: "Decides the identity clause and the shape of the tree rewrite, not which paths a pattern matches (C28): (filter-identity) the node filters built by gatherExcludeFilters and gatherIncludeFilters return their node argument itself or nil, and no literal of these builders stores to a field of data.Node (kept entries keep metadata and data); for --exclude the selection helper returns false exactly on the edge where a reject function returned true for the node's path and the filter keeps the node exactly when the helper, asked about that path, returns true; (rewrite-tree) TreeRewriter.RewriteTree gives the filter item.Node and path.Join(nodepath, node.Name), adds exactly the node the filter returned, moves past a kept node only through AddNode or the edge where the rewritten subtree ID is null, sets a directory's Subtree to the recursive result, starts rewriting only after the tree re-encoded to the same ID (or AllowUnstableSerialization), and memoises old→new IDs only after Finalize succeeded; (rewrite-unchanged) in filterAndReplaceSnapshot, with an identical filtered tree, no metadata change and no recomputed summary, SaveSnapshot is unreachable; (memo-needs-path-independence) TreeRewriter memoises rewritten subtrees by tree ID only, so every construction of a TreeRewriter whose node filter uses the path for its verdict (a comparison, or a call whose result is used — printing does not count), is a function value defined elsewhere, or updates captured variables on each visit, must pass the constant DisableNodeCache: true (NewSnapshotSizeRewriter: yes; repair snapshots: the path is only printed, memo allowed), and NewTreeRewriter creates the memo only with the cache enabled — added after a seeded change that re-enabled the memo for rewrite. Not decided: the include filter's directory handling ('directories leading to matches'), pattern semantics, and summary statistics.",
 		Assumptions: commonAssumptions,
 		Technique:   "static analysis: return-value origin and field-store effects of the filter closures + per-iteration path cuts + specialised path evaluation (go/ssa)",
 		Run: func(c *eng.Ctx) {
 			ruleFilterIdentity(c)
 			ruleRewriteTreeShape(c)
 			ruleRewriteUnchanged(c)
+			ruleMemoNeedsPathIndependence(c)
 		},
 		Controls: []Control{
+			{Name: "memo-enabled-for-path-dependent-filter", File: "internal/walker/rewriter.go",
+				Old: "		DisableNodeCache:   true,\n", New: "		DisableNodeCache:   keepEmptyDirectoryFilter != nil,\n", Rule: "memo-needs-path-independence"},
 			{Name: "exclude-filter-clears-content", File: "cmd/restic/cmd_rewrite.go",
 				Old: "		if exSelectByName(path) {\n			return node\n		}", New: "		if exSelectByName(path) {\n			node.AccessTime = node.ModTime\n			return node\n		}", Rule: "filter-identity"},
 			{Name: "exclude-keeps-matched-node", File: "cmd/restic/cmd_rewrite.go",
